@@ -393,7 +393,9 @@ func runCheck(cfg *RunConfig) int {
 		covered := map[string]int{}
 		for _, h := range runs {
 			for site, n := range h.mapRanges {
-				covered[site] = n
+				if n > covered[site] {
+					covered[site] = n
+				}
 			}
 		}
 		for _, s := range prog.scanNondet() {
